@@ -232,6 +232,51 @@ def finding_key_for(case, bad):
   return None
 
 
+RANGE_FIELDS = ('treatment_share_range', 'budget_range', 'treatment_geos_range', 'control_geos_range')
+ALL_FIELDS = ('n_test', 'iroas', 'volume_ratio_tolerance', 'geo_ratio_tolerance') + RANGE_FIELDS + (
+    'n_geos_max', 'n_pretest_max', 'n_designs', 'sig_level', 'power_level', 'min_corr', 'rho_max', 'flevel')
+VALID = {'n_test': 7, 'iroas': 1.0, 'volume_ratio_tolerance': 0.5, 'geo_ratio_tolerance': 0.5,
+         'treatment_share_range': (0.1, 0.6), 'budget_range': (1.0, 9.0), 'treatment_geos_range': (1, 3),
+         'control_geos_range': (2, 4), 'n_geos_max': 5, 'n_pretest_max': 40, 'n_designs': 2, 'sig_level': 0.9,
+         'power_level': 0.8, 'min_corr': 0.85, 'rho_max': 0.99, 'flevel': 0.95}
+
+
+def wrong_types(res):
+  """The abstract grid point "wrong type" (Params.tla: NumKind "str" => reject) bound to further concrete values:
+  numeric-looking objects that are neither int nor float are outside every documented domain ('A float', 'An integer',
+  'A tuple of two ...')."""
+  import decimal
+  import fractions
+  from matched_markets.methodology import tbrmmdesignparameters as mod
+  values = [('Decimal', lambda v: decimal.Decimal(str(v))), ('Fraction', lambda v: fractions.Fraction(v).limit_denominator(1000)),
+            ('complex', lambda v: complex(v, 0.0)), ('bytes', lambda v: b'1'), ('dict', lambda v: {'value': v})]
+  n = 0
+  for field in ALL_FIELDS:
+    for name, conv in values:
+      variants = []
+      if field in RANGE_FIELDS:
+        lo, hi = VALID[field]
+        variants = [(conv(lo), hi), (lo, conv(hi)), conv(lo)]
+      else:
+        variants = [conv(VALID[field])]
+      for val in variants:
+        kw = dict(VALID)
+        kw[field] = val
+        n += 1
+        res.traces += 1
+        try:
+          mod.TBRMMDesignParameters(**kw)
+          got = 'accepted'
+        except ValueError:
+          got = 'ValueError'
+        except Exception as e:  # pylint: disable=broad-except
+          got = type(e).__name__
+        if got != 'ValueError':
+          res.violate('WrongTypeRejectedWithValueError', {'kind': 'wrong_type', 'field': field, 'type': name, 'value': repr(val)},
+                      '%s=%r (%s, neither int nor float): %s, the documented domain demands ValueError' % (field, val, name, got))
+  res.extra['wrong_type_cases'] = n
+
+
 def run(res):
   from matched_markets.methodology.tbrmmdesignparameters import TBRMMDesignParameters as cls
   thorough = res.tier == 'thorough'
@@ -248,6 +293,7 @@ def run(res):
         r.init_states, len(lines)))
   bind = Binding(headers[0])
   defaults = bind.documented_defaults()
+  wrong_types(res)
   res.exhaustive = True
   res.rule = ('sixteen fields x every point of the boundary grid (each bound, its two floating-point neighbours, '
               'bound -/+ 1, interior points of int / float / non-integral kind, +-inf, NaN, \'1\', None, omitted, '
@@ -302,6 +348,10 @@ def run(res):
 
 
 def replay(res, blob):
+  if blob['case'].get('kind') == 'wrong_type':
+    wrong_types(res)
+    return
+
   from matched_markets.methodology.tbrmmdesignparameters import TBRMMDesignParameters as cls
   case = blob['case']
   res.traces += 1
